@@ -78,6 +78,16 @@ CHECKS = {
             'deleteAllObjects, RTTI and instantiation typedefs parsed from the generated toolbox vs Matlab/Files.v.',
             'skeleton facts are model-vs-output comparisons, not theorems.',
             'Coq proof (file set) + toolbox/model correspondence', '6 C10'),
+    'C14': ('proof', 'Theorems (Props/C14.v): a PybindWrapper modelled as a state machine over wrap_file calls returns to its '
+            'initial state after every call that succeeds or fails before registering a class, so the next output equals a '
+            'fresh wrapper\'s (invariant by induction over histories); the full statement is refuted (leak after a late '
+            'failure: recorded finding). Generator models are Gallina functions: output is a function of (tree, options, '
+            'template) by typing. Observed, not proved: both generators in fresh processes under several PYTHONHASHSEED '
+            'values, working directories and locales give identical sha256 for every output file and write nothing else; '
+            'call histories on one wrapper vs fresh wrappers; 16 parallel script processes in one directory.',
+            'partial: hash seed, locale, cwd, process identity and parallel writers are outside any executable model; they '
+            'are monitored by the correspondence only. strace-level read/write sets are not checked in the quick tier.',
+            'Coq proof (reset invariant over call histories) + environment/history/parallel experiments', '6 C14'),
     'C13': ('proof', 'Theorems (Props/C13.v): an instantiation is a function of its own argument tuple only (lists are '
             'never read), pointwise image of the product; alpha-invariance on the C02 domain via the substitution spec; '
             'refuted in general by the substring rewrite (recorded). Tie: metamorphic experiments on the implementation '
